@@ -25,6 +25,11 @@ EXTRA = {
     "C08-5": ["C01", "C05"], "C08-6": ["C05"], "C10-6": ["C08"],
     "C05-6": ["C08"], "C11-5": ["C20"], "C13-5": ["C14"], "C13-6": ["C15"], "C14-5": ["C13"], "C14-6": ["C15"],
     "C15-5": ["C13"], "C15-6": ["C13"], "C17-6": ["C20"], "C19-5": ["C17", "C20"], "C19-6": ["C13"], "C20-5": ["C17"], "C20-6": ["C11"],
+    "C01-7": ["C02", "C04"], "C01-8": ["C04", "C03"], "C03-7": ["C04"], "C03-8": ["C12"], "C04-7": ["C07"], "C04-8": ["C03"],
+    "C06-7": ["C11"], "C06-8": ["C04"], "C07-7": ["C06", "C11"], "C07-8": ["C02"], "C08-7": ["C10"], "C08-8": ["C10"],
+    "C09-8": ["C20"], "C10-7": ["C08"], "C10-8": ["C08"],
+    "C02-7": ["C03"], "C11-8": [], "C12-8": [], "C13-7": ["C14", "C15"], "C13-8": ["C15"], "C14-7": ["C13", "C15"], "C14-8": ["C13"],
+    "C15-7": ["C13"], "C15-8": ["C13"], "C17-7": ["C19"], "C17-8": ["C18"], "C19-8": ["C17", "C20"], "C20-7": ["C18"],
     "C13-3": ["C14"], "C13-4": ["C15"], "C15-4": ["C13"], "C14-3": ["C13"], "C19-4": ["C20"], "C20-3": ["C19"],
 }
 
